@@ -3,4 +3,8 @@
 #[path = "port_common.rs"]
 pub(crate) mod common;
 #[path = "port_slave.rs"]
-mod slave_h;
+pub(crate) mod slave_h;
+#[path = "port_master.rs"]
+pub(crate) mod master_h;
+#[path = "port_bmca.rs"]
+pub(crate) mod bmca_h;
